@@ -485,6 +485,57 @@ fn deep_chains(rep: &Reporter, cnt: &Counters, depths: &[usize]) {
     });
 }
 
+/// recursion that appears only on a LATER use of a macro that has already expanded without trouble (a macro
+/// calling a parameter passed by name): through the real binary, because a missing guard ends in a stack overflow
+fn late_recursion(rep: &Reporter, cnt: &Counters) -> usize {
+    ensure_bin();
+    let defs = "macro skip(a) -> inc ax <-\nmacro run(k) -> k (k) <-\nmacro run2(k, a) -> inc a k (k, a) <-\nmacro p(f) -> f (q) <-\nmacro q(f) -> f (p) <-\nmacro twice(k) -> k (skip) k (skip) <-\n";
+    // (harmless uses, then the use that closes a cycle)
+    let cases: Vec<(Vec<&str>, &str)> = vec![
+        (vec!["run(skip)"], "run(run)"),
+        (vec!["run(skip)", "run(skip)"], "run(run)"),
+        (vec!["run2(skip, bx)"], "run2(run2, bx)"),
+        (vec!["p(skip)"], "p(q)"),
+        (vec!["p(skip)", "q(skip)"], "q(p)"),
+        (vec!["twice(run)"], "twice(twice)"),
+        (vec!["twice(skip)", "run(skip)"], "run(twice)"),
+        (vec![], "run(run)"),
+    ];
+    let mut progs: Vec<(String, String)> = Vec::new();
+    for (ok, bad) in cases.iter() {
+        for in_proc in [false, true] {
+            let mut src = String::from(defs);
+            if in_proc {
+                src.push_str("def f {\n");
+                for u in ok.iter() {
+                    src.push_str(u);
+                    src.push('\n');
+                }
+                src.push_str("}\nstart:\ncall f\n");
+            } else {
+                src.push_str("start:\n");
+                for u in ok.iter() {
+                    src.push_str(u);
+                    src.push('\n');
+                }
+            }
+            src.push_str(bad);
+            src.push_str("\nprint reg\n");
+            progs.push((format!("{:?} then {}{}", ok, bad, if in_proc { " (harmless uses inside a procedure)" } else { "" }), src));
+        }
+    }
+    progs.par_iter().for_each(|(name, src)| {
+        let o = run_cli(src, "", &CliOpts { timeout_ms: 20000, ..Default::default() });
+        cnt.add_exec(1);
+        let out = o.out();
+        let ok = o.abnormal().is_none() && sections(&out).1.is_empty() && !out.trim().is_empty();
+        if !ok {
+            rep.report(Viol { site: "late-recursion".into(), field: "rejected".into(), vars: vec![], got_val: None, expected: "a diagnostic for the recursive use, nothing executed, normal exit".into(), got: format!("{}: {}", name, clip_text(&o.summary(), 600)), case: json!({"src": src, "stdin": "", "interpreted": false}), weight: src.len() as u64 });
+        }
+    });
+    progs.len()
+}
+
 pub fn run(tier: &Tier) -> i32 {
     let rep_o = Reporter::new("C13", tier.name());
     let c_o = Counters::default();
@@ -509,11 +560,12 @@ pub fn run(tier: &Tier) -> i32 {
     }
     let depths: Vec<usize> = if tier.thorough { vec![1, 2, 4, 8, 16, 32, 64, 128, 256, 512, 1024, 2048, 4096] } else { vec![1, 8, 64, 128, 256, 1024, 4096] };
     deep_chains(rep, c, &depths);
+    let n_late = late_recursion(rep, c);
     c.states.fetch_add(st.0.load(Ordering::Relaxed), Ordering::Relaxed);
     let mut cov = Coverage::default();
     cov.exhaustive = true;
-    cov.rule = "differential: the program with macros must emit exactly what the real Preprocessor emits for the reference expansion (whole-word, simultaneous textual substitution, nested uses expanded) pasted in place. Families: EVERY use graph over 1, 2 and 3 macros (4 in thorough; each macro uses any subset of the macros incl. itself => all DAGs and all cyclic graphs), used from top level by each macro and from inside a procedure; parameter lists whose names are prefixes/substrings of each other, of body tokens and of the tails of numeric literals in the body x 12 body templates (register, immediate, unsigned-only immediate, direct address, memory, displacement and macro-name slots) x 21 argument kinds squared (incl. constants above 0x7FFF and DS / SS overrides on BP- and BX-based operands); macros with 9 .. 13 parameters; by-name passing incl. cycles closed through a name; every sequence of up to 3 uses over macros with empty, blank, plain and nested-empty bodies (top level and inside a procedure); unknown and late-defined macros; chains of depth 1..64 in-process and up to 4096 through the real binary. Cyclic / unknown => diagnostic positioned at a use site; invalid expansion => rejected; deep chains => exact expansion up to depth 64, above that expansion or diagnostic but never an abort".into();
-    cov.bounds = json!({"cases": cases.len(), "reference_rejects": st.1.load(Ordering::Relaxed), "both_expand": st.2.load(Ordering::Relaxed), "chain_depths": depths, "tier": tier.name()});
+    cov.rule = "differential: the program with macros must emit exactly what the real Preprocessor emits for the reference expansion (whole-word, simultaneous textual substitution, nested uses expanded) pasted in place. Families: EVERY use graph over 1, 2 and 3 macros (4 in thorough; each macro uses any subset of the macros incl. itself => all DAGs and all cyclic graphs), used from top level by each macro and from inside a procedure; parameter lists whose names are prefixes/substrings of each other, of body tokens and of the tails of numeric literals in the body x 12 body templates (register, immediate, unsigned-only immediate, direct address, memory, displacement and macro-name slots) x 21 argument kinds squared (incl. constants above 0x7FFF and DS / SS overrides on BP- and BX-based operands); macros with 9 .. 13 parameters; by-name passing incl. cycles closed through a name, also when the cycle is closed only by a LATER use of a macro that expanded harmlessly before (16 programs through the real binary); every sequence of up to 3 uses over macros with empty, blank, plain and nested-empty bodies (top level and inside a procedure); unknown and late-defined macros; chains of depth 1..64 in-process and up to 4096 through the real binary. Cyclic / unknown => diagnostic positioned at a use site; invalid expansion => rejected; deep chains => exact expansion up to depth 64, above that expansion or diagnostic but never an abort".into();
+    cov.bounds = json!({"cases": cases.len(), "reference_rejects": st.1.load(Ordering::Relaxed), "both_expand": st.2.load(Ordering::Relaxed), "chain_depths": depths, "late_recursion_programs": n_late, "tier": tier.name()});
     cov.assumptions = common_assumptions();
     cov.assumptions.push("macro arguments are generated as unsigned numbers, registers, memory operands and identifiers (negative literals as arguments are not demanded)".into());
     cov.assumptions.push("acyclic chains deeper than 64 may be refused with a diagnostic (resource limit); they must never abort the process".into());
